@@ -198,15 +198,20 @@ class InjectedFault(OSError):
     pass
 
 
+class InjectedValueError(ValueError):
+    """a failure of the cache write that is not an OSError (json.dumps refusing a value, MemoryError ...)"""
+
+
 class FaultInjector:
     """raise OSError at the k-th mutating file-system call made by the library (C14).  Installed from
     outside into the namespaces of the file_builder modules; /repo is not changed."""
     MODS = ['file_builder.file_builder', 'file_builder.cache', 'file_builder.file_backups']
     OPS = ['mkdir', 'makedirs', 'rename', 'replace', 'rmdir']
 
-    def __init__(self, k=None, op=None):
+    def __init__(self, k=None, op=None, exc=None):
         self.k = k
         self.op = op     # fire at the first call of this kind instead of the k-th call
+        self.exc = exc   # 'EIO' (default), 'EXDEV', 'EACCES', 'ENOSPC', 'EPERM' ... or 'ValueError'
         self.count = 0
         self.fired = None
         self.log = []
@@ -230,7 +235,9 @@ class FaultInjector:
             if self.ctx is not None:
                 self.ctx.fault_call = tuple(self.ctx.call_stack) if self.ctx.call_stack else ('root',)
             import errno
-            raise InjectedFault(errno.EIO, 'injected fault', path)
+            if self.exc == 'ValueError':
+                raise InjectedValueError('injected fault')
+            raise InjectedFault(getattr(errno, self.exc or 'EIO'), 'injected fault', path)
 
     def __enter__(self):
         import gzip as real_gzip
@@ -346,7 +353,7 @@ def run_case(case, hooks=None, mutate=False):
                 if hooks and 'pre_build' in hooks:
                     hooks['pre_build'](ctx, root, cache_abs)
                 opts = st[5] if len(st) > 5 and isinstance(st[5], dict) else {}
-                inj = (FaultInjector(opts.get('inject'), opts.get('inject_op'))
+                inj = (FaultInjector(opts.get('inject'), opts.get('inject_op'), opts.get('inject_exc'))
                        if (opts.get('inject') is not None or opts.get('inject_op') or opts.get('count_faults')) else None)
                 if inj is not None:
                     inj.ctx = ctx
@@ -357,7 +364,7 @@ def run_case(case, hooks=None, mutate=False):
                         res = {'ok': wire.enc(r)}
                     except Exception as e:
                         res = {'exc': show_exc(e, ctx)}
-                        if isinstance(e, InjectedFault) or (inj is not None and inj.fired and isinstance(e, OSError)):
+                        if isinstance(e, (InjectedFault, InjectedValueError)) or (inj is not None and inj.fired and isinstance(e, OSError)):
                             res['exc']['cls'] = 'OSError'
                 finally:
                     if inj is not None:
